@@ -46,15 +46,16 @@ ASSUMPTIONS = [
     "an export that raises before and raises the same exception class after counts as the same export",
 ]
 TRUSTED = ["matplotlib Agg backend, lxml, protobuf runtime (used only to run the operations under test and to erase the date)"]
-REQUIRED_BUCKETS = ["op:occ", "op:state", "op:occs", "op:find_pos", "op:light", "op:reached", "op:eq", "op:hash", "op:copy",
+REQUIRED_BUCKETS = ["op:reached_own", "traj:custom-full", "op:occ", "op:state", "op:occs", "op:find_pos", "op:light", "op:reached", "op:eq", "op:hash", "op:copy",
                     "op:deepcopy", "op:pickle", "op:draw", "op:write_xml", "op:write_pb", "op:occset",
                     "traj:custom-vvy", "traj:pm", "traj:ks", "pred:set", "shape:group",
-                    "tbl:defaultdict-missing", "tbl:dict-missing", "tbl:none", "export:xml-ok", "export:pb-ok"]
+                    "tbl:defaultdict-missing", "tbl:dict-missing", "tbl:none", "export:xml-ok", "export:pb-ok", "merge:ids-to-merge",
+                    "op:lanelet_q", "op:net_copy", "op:goal_reached", "op:find_shape", "op:states_at"]
 WORKERS = {"quick": 1, "thorough": 8}
 
 # ------------------------------------------------------------------------------------------------ generators
 
-STATE_CLASSES = ["ks", "pm", "extpm", "ks-unc", "custom-vvy", "custom-ori", "custom-bare"]
+STATE_CLASSES = ["ks", "pm", "extpm", "ks-unc", "custom-vvy", "custom-ori", "custom-bare", "custom-full"]
 
 
 def _f(r, lo, hi):
@@ -112,6 +113,8 @@ def gen_traj_states(r, cls, t1, n):
             out.append({"cls": "CustomState", "t": t, "attrs": a})
         elif cls == "custom-ori":
             out.append({"cls": "CustomState", "t": t, "attrs": [["position", pos], ["orientation", ori], ["velocity", v]]})
+        elif cls == "custom-full":   # multi-body like: heading and both velocity components
+            out.append({"cls": "CustomState", "t": t, "attrs": [["position", pos], ["orientation", ori], ["velocity", v], ["velocity_y", vy]]})
         else:  # custom-bare: neither orientation nor velocity_y -> occupancy computation raises AttributeError
             out.append({"cls": "CustomState", "t": t, "attrs": [["position", pos], ["velocity", v]]})
     # same attribute set for every state of one trajectory
@@ -136,7 +139,8 @@ def gen_spec(r, tiny=False):
             lid = 100 + 10 * rr + cc
             n = r.choice([2, 2, 3, 5])
             ll = {"id": lid, "row": rr, "col": cc, "n": n, "bend": r.choice([0.0, 0.0, 0.5]),
-                  "pred": [lid - 1] if cc > 0 else [], "succ": [lid + 1] if cc + 1 < cols else [],
+                  "pred": ([lid - 1] if cc > 0 else []) + ([lid - 11] if cc > 0 and rr > 0 and r.random() < 0.4 else []),
+                  "succ": ([lid + 1] if cc + 1 < cols else []) + ([lid - 9] if cc + 1 < cols and rr > 0 and r.random() < 0.4 else []),
                   "adj_left": [lid + 10, True] if rr + 1 < rows else None, "adj_right": [lid - 10, True] if rr > 0 else None,
                   "lm_left": r.choice(["DASHED", "SOLID", "NO_MARKING"]), "lm_right": r.choice(["SOLID", "NO_MARKING"]),
                   "types": sorted(r.sample(["URBAN", "HIGHWAY", "COUNTRY"], r.randint(0, 2))),
@@ -187,7 +191,7 @@ def gen_spec(r, tiny=False):
                                "signal_series": r.choice([[], [], [], [], [], None]),   # None: the protobuf writer cannot write it
                                "init_signal": gen_signal(r, 0) if r.random() < 0.3 else None,
                                "center_ids": sorted(r.sample(lids, 1)) if lids and r.random() < 0.5 else None,
-                               "shape_ids": sorted(r.sample(lids, 1)) if lids and r.random() < 0.5 else None})
+                               "shape_ids": sorted(r.sample(lids, 1)) if lids and r.random() < 0.6 else None})
     spec["dynamic"] = []
     for _ in range(r.choice([1, 2, 2, 3]) if not tiny else r.choice([1, 1, 2])):
         t0 = r.choice([0, 0, 0, 1, 3])
@@ -196,7 +200,7 @@ def gen_spec(r, tiny=False):
         d = {"id": nid(), "type": r.choice(["CAR", "TRUCK", "BICYCLE", "PEDESTRIAN", "BUS"]), "shape": shape, "init": init_state(t0),
              "pred": None, "init_signal": gen_signal(r, t0) if r.random() < 0.4 else None,
              "signal_series": None, "center_ids": sorted(r.sample(lids, 1)) if lids and r.random() < 0.3 else None,
-             "shape_ids": sorted(r.sample(lids, 1)) if lids and r.random() < 0.3 else None,
+             "shape_ids": sorted(r.sample(lids, 1)) if lids and r.random() < 0.5 else None,
              "meta": r.random() < 0.2, "external_id": r.choice([None, None, 77]), "history": r.random() < 0.2}
         if kind == "traj":
             cls = r.choice(STATE_CLASSES + ["custom-vvy", "pm", "ks"])
@@ -234,10 +238,10 @@ def gen_spec(r, tiny=False):
             a = []
             if r.random() < 0.7:
                 a.append(["position", gen_shape(r)])
-            if r.random() < 0.4:
+            if r.random() < 0.5:
                 lo = _f(r, -3, 2)
                 a.append(["orientation", ["aiv", lo, lo + r.choice([0.5, 1.0])]])
-            if r.random() < 0.4:
+            if r.random() < 0.5:
                 lo = _f(r, 0, 10)
                 a.append(["velocity", ["iv", lo, lo + 5.0]])
             goals.append({"cls": "CustomState", "t": ["iv", r.randint(0, 5), r.randint(6, 30)], "attrs": a})
@@ -266,9 +270,9 @@ def gen_ops(r, spec, n=None, allow_draw=True):
     occ_ids = [d["id"] for d in dyn] * 3 + all_ids
     lids = [l["id"] for l in spec["lanelets"]]
     kinds = ["occ"] * 5 + ["state"] * 3 + ["occs"] * 3 + ["states_at", "occset", "occset", "find_pos", "find_pos", "find_shape", "proximity",
-            "light", "light", "reached", "reached", "goal_reached", "eq", "eq", "hash", "hash", "copy", "deepcopy", "deepcopy", "pickle",
+            "light", "light", "reached", "reached", "reached_own", "reached_own", "goal_reached", "eq", "eq", "hash", "hash", "copy", "deepcopy", "deepcopy", "pickle",
             "pickle", "write_xml", "write_xml", "write_pb", "write_pb", "write_pb", "str", "by_role", "by_interval", "signal", "lanelet_q",
-            "map_obstacles", "final_time", "traj_q"]
+            "map_obstacles", "final_time", "traj_q", "net_copy", "lanelet_q", "most_likely"]
     if allow_draw:
         kinds += ["draw"]
     targets = ["scenario", "pps", "net"] + [["obstacle", i] for i in all_ids] + [["problem", p["id"]] for p in spec["problems"]]
@@ -327,6 +331,12 @@ def gen_ops(r, spec, n=None, allow_draw=True):
         elif k == "reached":
             if spec["problems"]:
                 ops.append(["reached", r.choice(spec["problems"])["id"], state_spec()])
+        elif k == "reached_own":
+            c = [d for d in dyn if d["pred"] and d["pred"]["kind"] == "traj"]
+            if spec["problems"] and c:
+                d = r.choice(c)
+                ops.append(["reached_own", r.choice(spec["problems"])["id"], d["id"], r.choice(["state", "state", "trajectory", "initial"]),
+                            d["pred"]["t1"] + r.randint(0, len(d["pred"]["states"]) - 1)])
         elif k == "goal_reached":
             if spec["problems"]:
                 cls = r.choice(["ks", "pm", "custom-ori"])
@@ -354,7 +364,13 @@ def gen_ops(r, spec, n=None, allow_draw=True):
         elif k == "lanelet_q":
             if lids:
                 ops.append(["lanelet_q", r.choice(lids), r.choice(["contains", "interpolate", "orientation", "obstacles", "succ_range",
-                                                                    "merge_succ", "dyn_by_time", "polygon", "distance"]), pts()])
+                                                                    "merge_succ", "merge_succ", "merge_pred", "pred_range", "dyn_by_time",
+                                                                    "polygon", "distance"]), pts()])
+        elif k == "net_copy":
+            ops.append(["net_copy", r.choice(["network", "list", "shape"])])
+        elif k == "most_likely":
+            if lids:
+                ops.append(["most_likely", [[20.0 * r.randint(0, 2) + 3.0625, 2.0625, _f(r, -1, 1)]]])
         elif k == "map_obstacles":
             ops.append(["map_obstacles", r.choice(["map", "filter"])])
     if not ops:
@@ -362,9 +378,41 @@ def gen_ops(r, spec, n=None, allow_draw=True):
     return ops
 
 
-def gen_case(ctx, tiny=False, allow_draw=True):
+def gen_case(ctx, tiny=False, allow_draw=True, recipe=None):
+    """recipe: None (free), or a directed shape that the side effects seen so far depend on"""
     r = ctx.rng
-    spec = gen_spec(r, tiny=tiny)
+    for _ in range(200):
+        spec = gen_spec(r, tiny=tiny)
+        if recipe == "merge":
+            # a lanelet with a successor, an obstacle registered on only one of the two, and a merge query on the first
+            cand = [l for l in spec["lanelets"] if l["succ"]]
+            if not cand or not (spec["static"] or spec["dynamic"]):
+                continue
+            l = r.choice(cand)
+            where = r.choice([l["succ"][0], l["id"]])
+            for o in spec["static"] + spec["dynamic"]:
+                o["shape_ids"] = [where]
+            ops = gen_ops(r, spec, allow_draw=allow_draw)
+            q = r.choice(["merge_succ", "merge_succ", "merge_pred"])
+            ops.insert(r.randint(0, len(ops)), ["lanelet_q", l["id"] if q == "merge_succ" else l["succ"][0], q, [[1.0625, 1.0625]]])
+            return {"spec": spec, "ops": ops}
+        if recipe == "vvy":
+            d = [d for d in spec["dynamic"] if d["pred"] and d["pred"]["kind"] == "traj" and d["pred"]["cls"] == "custom-vvy"]
+            if not d:
+                continue
+            ops = gen_ops(r, spec, allow_draw=allow_draw)
+            d = r.choice(d)
+            ops.insert(r.randint(0, len(ops)), r.choice([["occ", d["id"], d["pred"]["t1"] + r.randint(0, 1)], ["occset", d["id"]],
+                                                         ["occs", d["pred"]["t1"], None],
+                                                         ["by_interval", [-10.0, 70.0], [-5.0, 15.0], d["pred"]["t1"]]]))
+            return {"spec": spec, "ops": ops}
+        if recipe == "tbl":
+            if not any(p["tbl"] and len(p["tbl"]["items"]) < len(p["goals"]) for p in spec["problems"]):
+                continue
+            ops = gen_ops(r, spec, allow_draw=allow_draw)
+            ops.insert(r.randint(0, len(ops)), ["write_pb", "full"])
+            return {"spec": spec, "ops": ops}
+        return {"spec": spec, "ops": gen_ops(r, spec, allow_draw=allow_draw)}
     return {"spec": spec, "ops": gen_ops(r, spec, allow_draw=allow_draw)}
 
 
@@ -618,6 +666,8 @@ def snapshot(sc, pps):
 
 def first_diff(a, b, path=""):
     """path (indices erased) of the first difference between two snapshots, or None"""
+    if path == "" and a == b:
+        return None
     if type(a) is not type(b):
         return path + f"<{type(a).__name__}->{type(b).__name__}>"
     if isinstance(a, dict):
@@ -665,13 +715,42 @@ def export(ctx, sc, pps, fmt, mode="full"):
         data = open(path, "rb").read()
         if fmt == "xml":
             return re.sub(rb'date="[^"]*"', b'date=""', data, count=1)
+        return _erase_pb_date(data)
+    return call(go)
+
+
+_PB_CANON = {}
+
+
+def _erase_pb_date(data):
+    """protobuf bytes with information.date set to a fixed value (memoised on the raw bytes: within one minute the writer
+    produces identical bytes for an unchanged scenario)"""
+    c = _PB_CANON.get(data)
+    if c is None:
         from commonroad.scenario_definition.protobuf_format.generated_scripts import commonroad_pb2
         m = commonroad_pb2.CommonRoad()
         m.ParseFromString(data)
         m.information.date.year, m.information.date.month, m.information.date.day = 2000, 1, 1
         m.information.date.hour = m.information.date.minute = 0
-        return m.SerializeToString(deterministic=True)
-    return call(go)
+        c = m.SerializeToString(deterministic=True)
+        if len(_PB_CANON) > 64:
+            _PB_CANON.clear()
+        _PB_CANON[data] = c
+    return c
+
+
+_FILE_ABS = {}
+
+
+def _file_abs(data, fmt):
+    k = (fmt, data)
+    v = _FILE_ABS.get(k)
+    if v is None:
+        v = file_abs_xml(data) if fmt == "xml" else file_abs_pb(data)
+        if len(_FILE_ABS) > 64:
+            _FILE_ABS.clear()
+        _FILE_ABS[k] = v
+    return v
 
 
 class contextlib_redirect:
@@ -755,6 +834,14 @@ def run_op(ctx, sc, pps, op, twin):
         return list(TrafficLightState).index(net.find_traffic_light_by_id(op[1]).get_state_at_time_step(op[2]))
     if k == "reached":
         return bool(pps.planning_problem_dict[op[1]].goal.is_reached(mk_state(op[2])))
+    if k == "reached_own":
+        pp, o = pps.planning_problem_dict[op[1]], sc.obstacle_by_id(op[2])
+        if op[3] == "state":
+            return bool(pp.goal.is_reached(o.state_at_time(op[4])))
+        if op[3] == "initial":
+            return bool(pp.goal.is_reached(pp.initial_state))
+        ok, i = pp.goal_reached(o.prediction.trajectory)
+        return [bool(ok), int(i)]
     if k == "goal_reached":
         from commonroad.scenario.trajectory import Trajectory
         ok, i = pps.planning_problem_dict[op[1]].goal_reached(Trajectory(op[2], [mk_state(s) for s in op[3]]))
@@ -809,12 +896,31 @@ def run_op(ctx, sc, pps, op, twin):
             from commonroad.scenario.lanelet import Lanelet
             ls, ids = Lanelet.all_lanelets_by_merging_successors_from_lanelet(l, net, 60.0)
             return ids
+        if q == "merge_pred":
+            from commonroad.scenario.lanelet import Lanelet
+            ls, ids = Lanelet.all_lanelets_by_merging_predecessors_from_lanelet(l, net, 60.0)
+            return ids
+        if q == "pred_range":
+            return l.find_lanelet_predecessors_in_range(net, 45.0)
         if q == "dyn_by_time":
             return sorted(l.dynamic_obstacle_by_time_step(1))
         if q == "polygon":
             return len(l.polygon.vertices) + len(l.convert_to_polygon().vertices)
         if q == "distance":
             return [float(l.distance[-1]), float(l.inner_distance[-1])]
+    if k == "net_copy":
+        from commonroad.scenario.lanelet import LaneletNetwork
+        if op[1] == "network":
+            c = LaneletNetwork.create_from_lanelet_network(net)
+        elif op[1] == "shape":
+            c = LaneletNetwork.create_from_lanelet_network(net, mk_shape(["rect", 30.0, 6.0, 20.0, 2.0, 0.0]))
+        else:
+            c = LaneletNetwork.create_from_lanelet_list(net.lanelets)
+        return sorted(l.lanelet_id for l in c.lanelets)
+    if k == "most_likely":
+        from commonroad.scenario.state import KSState
+        sts = [KSState(time_step=0, position=np.array([a, b]), orientation=c) for a, b, c in op[1]]
+        return [int(i) for i in net.find_most_likely_lanelet_by_state(sts)]
     if k == "map_obstacles":
         obs = sc.static_obstacles
         if op[1] == "map":
@@ -948,7 +1054,7 @@ def abstract(sc, pps, I, cells):
                          None if t is None else ["defaultdict" if isinstance(t, collections.defaultdict) else "dict",
                                                  [[int(k), [int(x) for x in v]] for k, v in t.items()]]])
     return {"obstacles": obs,
-            "net": {"lanelets": [[l.lanelet_id, cells.get(l.lanelet_id, [])] for l in net.lanelets], "index": net._strtee is not None},
+            "net": {"lanelets": [[l.lanelet_id, cells.get(l.lanelet_id, [])] for l in net.lanelets], "index": getattr(net, "_strtee", None) is not None},
             "lights": lights, "problems": problems}
 
 
@@ -1177,8 +1283,7 @@ def run_case(ctx, case, with_model=True, old_pb=False):
     def file_answer(res, fmt, mode):
         if res[0] != "ok":
             return res
-        fa = file_abs_xml(res[1]) if fmt == "xml" else file_abs_pb(res[1])
-        return ("ok", fa)
+        return ("ok", _file_abs(res[1], fmt))
 
     s0 = snapshot(sc, pps)
     # reference exports; an export is itself a read-only operation, so it is framed by snapshots as well
@@ -1196,6 +1301,10 @@ def run_case(ctx, case, with_model=True, old_pb=False):
         ctx.tag(f"export:{fmt}-{ref[fmt][0]}" + ("" if ref[fmt][0] == "ok" else ":" + ref[fmt][1]))
     for i, op in enumerate(ops):
         ctx.tag("op:" + op[0])
+        if op[0] == "lanelet_q":
+            ctx.tag("lanelet_q:" + op[2])
+            if op[2] in ("merge_succ", "merge_pred") and _merge_moves_ids(spec, op[1], op[2]):
+                ctx.tag("merge:ids-to-merge")
         _LAST.clear()
         with warnings.catch_warnings(), Spy(sc) as spy:
             warnings.simplefilter("ignore")
@@ -1233,12 +1342,13 @@ def run_case(ctx, case, with_model=True, old_pb=False):
                 ctx.fail(f"C18/{_opkey(op)}/export-differs:{fmt}", f"the {fmt} export after operation {op[:3]} differs from the export "
                          f"before ({ref[fmt]} -> {e})", sub)
                 ref[fmt] = e
-            s2 = snapshot(sc, pps)
-            d = first_diff(s0, s2)
-            if d:
-                ctx.fail(f"C18/write_{fmt}/changed:{d}", f"writing the {fmt} file changed {d}",
-                         {"spec": spec, "ops": ops[:i + 1] + [[f"write_{fmt}", "full"]]})
-                s0 = s2
+        # (the two exports just made are read-only operations too; each writer was framed on its own at the start of the case)
+        s2 = snapshot(sc, pps)
+        d = first_diff(s0, s2)
+        if d:
+            ctx.fail(f"C18/write_after_{_opkey(op)}/changed:{d}", f"writing the XML and protobuf files after {op[:3]} changed {d}",
+                     {"spec": spec, "ops": ops[:i + 1] + [["write_xml", "full"], ["write_pb", "full"]]})
+            s0 = s2
     # the untouched twin built from the same spec must still look like the operated scenario
     if len(ctx.failures) == nfail0:
         with warnings.catch_warnings():
@@ -1246,6 +1356,13 @@ def run_case(ctx, case, with_model=True, old_pb=False):
             d = first_diff(snapshot(twin[0], twin[1]), s0)
         if d:
             ctx.fail(f"C18/sequence/differs-from-untouched-twin:{d}", f"after the sequence the scenario differs from an untouched twin at {d}", case)
+    # and it must answer a fixed set of probing queries like the twin (exception classes included)
+    if len(ctx.failures) == nfail0:
+        pa, pb = probes(spec, sc, pps), probes(spec, twin[0], twin[1])
+        d = first_diff(pa, pb)
+        if d:
+            ctx.fail(f"C18/sequence/probe-differs:{d}", f"after the sequence the scenario answers the probing query {d} differently from "
+                     f"an untouched twin", case)
     if not with_model:
         return
     # ---- correspondence: the same operation sequence on the Lean model
@@ -1262,6 +1379,54 @@ def run_case(ctx, case, with_model=True, old_pb=False):
         impl_l.append({"view": view, "answer_agrees": bad is None})
         model_l.append({"view": mr["st"], "answer_agrees": True})
     ctx.compare(case, impl_l, model_l, what or "read-only operation sequence vs CR.Frame.trace")
+
+
+def probes(spec, sc, pps):
+    """answers of a fixed set of queries (name -> canonical answer or exception class)"""
+    import numpy as np
+    out = {}
+
+    def q(name, f):
+        with warnings.catch_warnings():
+            warnings.simplefilter("ignore")
+            res = call(f)
+        out[name] = {"ok": _canon_out(res[1])} if res[0] == "ok" else {"err": res[1]}
+    for k in ("static", "dynamic", "phantom", "env"):
+        for o in spec[k]:
+            t0 = o["init"]["t"] if "init" in o else 0
+            for t in (t0, t0 + 1, t0 + 2):
+                def occ(o=o, t=t):
+                    x = sc.obstacle_by_id(o["id"]).occupancy_at_time(t)
+                    return None if x is None else [_occ_out(x), json.dumps(snap(x.shape), sort_keys=True)]
+                q(f"occupancy_at_time({k} obstacle {o['id']}, {t})", occ)
+    if spec["lanelets"]:
+        q("find_lanelet_by_position", lambda: [sorted(int(i) for i in ids) for ids in
+                                               sc.lanelet_network.find_lanelet_by_position([np.array([3.0625, 2.0625]), np.array([23.0625, 5.0625])])])
+        q("find_lanelet_by_shape", lambda: sorted(int(i) for i in sc.lanelet_network.find_lanelet_by_shape(mk_shape(["circ", 3.0, 20.0, 4.0]))))
+    for l in spec["lights"]:
+        q(f"light.{l['id']}", lambda l=l: [sc.lanelet_network.find_traffic_light_by_id(l["id"]).get_state_at_time_step(t).name for t in (0, 3, 11)])
+    q("occupancies_at_time_step", lambda: [_occ_out(o) for o in sc.occupancies_at_time_step(1)])
+    return out
+
+
+def _merge_moves_ids(spec, lid, q):
+    """does merging lanelet `lid` with its successors/predecessors bring together lanelets one of which has obstacle ids the
+    other one lacks?  (only then a merge that writes into its inputs is visible)"""
+    by_id = {l["id"]: l for l in spec["lanelets"]}
+    reg = {i: set() for i in by_id}
+    for o in spec["static"]:
+        for i in o["shape_ids"] or []:
+            reg[i].add(("s", o["id"]))
+    for o in spec["dynamic"]:
+        for i in o["shape_ids"] or []:
+            reg[i].add(("d", o["id"], o["init"]["t"]))
+        p = o["pred"]
+        if p and p["kind"] == "traj" and p["shape_assign"]:
+            for t, ids in p["shape_assign"]:
+                for i in ids:
+                    reg[i].add(("d", o["id"], t))
+    nxt = by_id[lid]["succ" if q == "merge_succ" else "pred"]
+    return any(reg[n] - reg[lid] or reg[lid] - reg[n] for n in nxt if n in reg)
 
 
 def _canon_out(v):
@@ -1305,7 +1470,8 @@ def run(ctx):
         run_case(ctx, json.load(open(p)))
     n = ctx.n(110)
     for i in range(n):
-        run_case(ctx, gen_case(ctx, tiny=(i % 4 == 3), allow_draw=(i % 5 == 0)))
+        recipe = {1: "merge", 6: "vvy", 11: "tbl", 16: "merge"}.get(i % 20)
+        run_case(ctx, gen_case(ctx, tiny=(i % 4 == 3 and recipe is None), allow_draw=(i % 5 == 0), recipe=recipe))
 
 
 search = run
